@@ -411,16 +411,6 @@ Proof.
   rewrite Nat2Z.id. f_equal. clear. induction a; cbn; [reflexivity | f_equal; assumption].
 Qed.
 
-Definition fix_one (req : fixreq) (p : param) : param :=
-  match assoc req (p_name p) with Some i => make_fixed p i | None => p end.
-
-Definition float_one (req : floatreq) (p : param) : param :=
-  match assoc req (p_name p) with
-  | Some e => let '(i, lo, hi) := parse_fentry e in
-              match make_floating p i lo hi with Ok p' => p' | Err _ => p end
-  | None => p
-  end.
-
 Lemma fix_one_name req p : p_name (fix_one req p) = p_name p.
 Proof. unfold fix_one. destruct (assoc req (p_name p)); [apply make_fixed_props | reflexivity]. Qed.
 
@@ -768,13 +758,6 @@ Proof.
   unfold copy_set. rewrite HM. cbn [bind]. eexists. split; [reflexivity|]. split; [reflexivity|].
   apply Consistent_intro; auto. cbn [ps_params]. apply mapM_rd_seq.
 Qed.
-
-(* the parameters a union adds to an accumulated list: those whose name is new *)
-Fixpoint add_new (acc qs : list param) : list param :=
-  match qs with
-  | [] => acc
-  | q :: r => if mem (p_name q) (map p_name acc) then add_new acc r else add_new (acc ++ [q]) r
-  end.
 
 Lemma add_new_ext acc qs : exists new, add_new acc qs = acc ++ new.
 Proof.
